@@ -113,6 +113,7 @@ type RunSpec struct {
 	First     string `json:"first,omitempty"`
 	Target    string `json:"target,omitempty"` // subscription prefix target
 	Paths     int    `json:"paths,omitempty"`  // subscription entries (the fake streams everything it is configured with)
+	Dress     int    `json:"dress,omitempty"`  // see subscribeMsg
 	PreConfig int    `json:"pre_config"`       // >= 0: SetConfig(Configs[PreConfig]) before Run is called
 	Steps     []Step `json:"steps"`
 	Tail      int    `json:"tail"` // responses read by a drain from a generation that never ends
@@ -320,8 +321,22 @@ func isDone(done chan struct{}) bool {
 	}
 }
 
-func subscribeMsg(mode, target string, paths int) *gpb.SubscribeRequest {
+// dress: fields of the SubscriptionList the fake has no use for (it streams what it is configured
+// with, whatever is asked): bit 0 updates_only, 1 allow_aggregation, 2 encoding PROTO, 3 qos,
+// 4 use_models. None of them changes what is emitted.
+func subscribeMsg(mode, target string, paths, dress int) *gpb.SubscribeRequest {
 	sub := &gpb.SubscriptionList{}
+	sub.UpdatesOnly = dress&1 != 0
+	sub.AllowAggregation = dress&2 != 0
+	if dress&4 != 0 {
+		sub.Encoding = gpb.Encoding_PROTO
+	}
+	if dress&8 != 0 {
+		sub.Qos = &gpb.QOSMarking{Marking: 7}
+	}
+	if dress&16 != 0 {
+		sub.UseModels = []*gpb.ModelData{{Name: "m", Organization: "o", Version: "1"}}
+	}
 	switch mode {
 	case ModeOnce:
 		sub.Mode = gpb.SubscriptionList_ONCE
@@ -347,11 +362,11 @@ func pollMsg() *gpb.SubscribeRequest {
 func strayMsg(kind string) *gpb.SubscribeRequest {
 	switch kind {
 	case "sub-stream":
-		return subscribeMsg(ModeStream, "other", 1)
+		return subscribeMsg(ModeStream, "other", 1, 0)
 	case "sub-once":
-		return subscribeMsg(ModeOnce, "", 0)
+		return subscribeMsg(ModeOnce, "", 0, 0)
 	case "sub-poll":
-		return subscribeMsg(ModePoll, "other", 2)
+		return subscribeMsg(ModePoll, "other", 2, 1)
 	case "sub-nil":
 		return &gpb.SubscribeRequest{Request: &gpb.SubscribeRequest_Subscribe{}}
 	case "poll-nil":
@@ -536,7 +551,7 @@ func (x *sessExec) runOne(ri int) (err error) {
 		st.label("clause-session-run-refuses-a-stream-without-subscription")
 		return nil
 	}
-	s.in <- subscribeMsg(r.Mode, r.Target, r.Paths)
+	s.in <- subscribeMsg(r.Mode, r.Target, r.Paths, r.Dress)
 	cur := x.newGen(ri, r.Target)
 	poll := r.Mode == ModePoll
 
